@@ -93,6 +93,7 @@ End Rename.
 (** * The invariant of flat histories *)
 Section Hist.
   Variable ord : list (str * id) -> list (str * id).
+  Hypothesis ord_incl : forall l x, In x (ord l) -> In x l.
   Variables (cf fuel : nat).
   Variable Col : types -> Prop.
   Hypothesis Col_same : forall t1 t2, Col t1 -> Col t2 -> t_tag t1 = t_tag t2 -> t1 = t2.
@@ -102,26 +103,39 @@ Section Hist.
   Notation contrib := (str * (types * kind))%type.
   Definition flat_contrib (c : contrib) : Prop :=
     Col (fst (snd c)) /\ owner_free (fst (snd c)) /\
-    exists i x, snd (snd c) = KInstance i /\ get_if (fst (snd c)) i = Some x /\ flat_if (fst (snd c)) x.
+    exists i x, snd (snd c) = KInstance i /\ get_if (fst (snd c)) i = Some x /\ flat_if (fst (snd c)) x /\
+                (i_id x = None \/ i_id x = Some (fst c)).
   Definition ckey (c : contrib) : ty := ty_of (snd (snd c)).
 
   (** every export of contribution [c] is offered, with its tree, by the import its name leads to *)
   Definition carried (a : agg) (c : contrib) : Prop :=
     forall i x, snd (snd c) = KInstance i -> get_if (fst (snd c)) i = Some x ->
-      exists y exs, assoc (Aggregator.canonical a (fst c)) (a_imports a) = Some (KInstance y) /\
-                    get_if (a_types a) y = Some (mkif None [] exs) /\
+      exists y oid exs, assoc (Aggregator.canonical a (fst c)) (a_imports a) = Some (KInstance y) /\
+                    get_if (a_types a) y = Some (mkif oid [] exs) /\
                     forall en ek tr, In (en, ek) (i_exports x) -> UnfK (fst (snd c)) ek tr ->
                                      exists k', assoc en exs = Some k' /\ UnfK (a_types a) k' tr.
+
+  (** contribution [c] requires an export [en] with tree [tr] *)
+  Definition exports_of (c : contrib) (en : str) (tr : tree) : Prop :=
+    exists i x ek, snd (snd c) = KInstance i /\ get_if (fst (snd c)) i = Some x /\ In (en, ek) (i_exports x) /\
+                   UnfK (fst (snd c)) ek tr.
+  (** every export of every import comes from a contribution whose name leads to that import *)
+  Definition justified (a : agg) (done : list contrib) : Prop :=
+    forall n y oid exs, In (n, KInstance y) (a_imports a) -> get_if (a_types a) y = Some (mkif oid [] exs) ->
+      forall en k' tr, assoc en exs = Some k' -> UnfK (a_types a) k' tr ->
+        exists c, In c done /\ Aggregator.canonical a (fst c) = n /\ exports_of c en tr.
 
   Record HInv (a : agg) (s : st) (done : list contrib) : Prop := {
     h_names : NInv (map fst (a_imports a)) (a_redirects a) (map fst done);
     h_minv : MInv Col tag0 (core_of a s);
     h_flat : forall n k, In (n, k) (a_imports a) ->
-                         exists y exs, k = KInstance y /\ get_if (a_types a) y = Some (mkif None [] exs) /\
-                                       flat_exports (a_types a) exs;
+                         exists y oid exs, k = KInstance y /\ get_if (a_types a) y = Some (mkif oid [] exs) /\
+                                           flat_exports (a_types a) exs;
+    h_ifaces : forall n1 y1, In (n1, y1) (a_ifaces a) -> In n1 (map fst done);
     h_distinct : NoDup (map (fun nk : str * kind => kidx (snd nk)) (a_imports a));
     h_ifkeys : forall i v, rm_get (TInterface i) (a_remapped a) = Some v -> In (TInterface i) (map ckey done);
-    h_carried : forall c, In c done -> carried a c }.
+    h_carried : forall c, In c done -> carried a c;
+    h_just : justified a done }.
 
   Lemma HInv_nil : HInv (agg0 tag0) st0 [].
   Proof.
@@ -129,6 +143,7 @@ Section Hist.
     - apply NInv_nil.
     - split; cbn; auto; intros ? ? H; try discriminate; contradiction.
     - constructor.
+    - intros n y oid exs [].
   Qed.
 
   Lemma get_if_tag T y z : get_if T y = Some z -> id_tag y = t_tag T /\ (id_idx y < length (t_interfaces T))%nat.
@@ -170,29 +185,29 @@ Section Hist.
 
   (** flat interfaces of the aggregator only grow, and keep the trees of their exports *)
   Definition grows (T T' : types) : Prop :=
-    forall y0 exs0, get_if T y0 = Some (mkif None [] exs0) -> flat_exports T exs0 ->
-      exists exs0', get_if T' y0 = Some (mkif None [] exs0') /\ flat_exports T' exs0' /\
+    forall y0 oid exs0, get_if T y0 = Some (mkif oid [] exs0) -> flat_exports T exs0 ->
+      exists exs0', get_if T' y0 = Some (mkif oid [] exs0') /\ flat_exports T' exs0' /\
                     forall en k tr, assoc en exs0 = Some k -> UnfK T k tr ->
                                     exists k', assoc en exs0' = Some k' /\ UnfK T' k' tr.
 
   Lemma grows_unchanged T T' :
     ext T T' -> (forall j z, get_if T j = Some z -> get_if T' j = Some z) -> grows T T'.
   Proof.
-    intros E Hsame y0 exs0 Hg Hf. exists exs0. split; [now apply Hsame|]. split; [eapply flat_exports_ext; eauto|].
+    intros E Hsame y0 oid exs0 Hg Hf. exists exs0. split; [now apply Hsame|]. split; [eapply flat_exports_ext; eauto|].
     intros en k tr Ha Hu. exists k. split; auto. destruct Hf as [_ Hall]. destruct (Hall en k (assoc_in _ _ _ Ha)) as [L _].
     eapply UnfK_leaf_ext; eauto.
   Qed.
 
-  Lemma grows_merge y c c' exs exs' :
-    LoopSt Col tag0 y c exs -> LoopSt Col tag0 y c' exs' -> Frame y c c' ->
+  Lemma grows_merge y c c' oid exs exs' :
+    LoopSt Col tag0 y c oid exs -> LoopSt Col tag0 y c' oid exs' -> Frame y c c' ->
     (forall n k tr, assoc n exs = Some k -> UnfK (c_types c) k tr -> exists k', assoc n exs' = Some k' /\ UnfK (c_types c') k' tr) ->
     grows (c_types c) (c_types c').
   Proof.
-    intros L L' Fr Old y0 exs0 Hg Hf. destruct (Nat.eq_dec (id_idx y0) (id_idx y)) as [E|N].
+    intros L L' Fr Old y0 oid0 exs0 Hg Hf. destruct (Nat.eq_dec (id_idx y0) (id_idx y)) as [E|N].
     - assert (y0 = y) as ->.
-      { apply id_eq_of; auto. destruct (get_if_tag _ _ _ Hg) as [T0 _]. destruct (get_if_tag _ _ _ (ls_get _ _ _ _ _ L)) as [T1 _]. congruence. }
-      rewrite (ls_get _ _ _ _ _ L) in Hg. injection Hg as <-. exists exs'. split; [apply (ls_get _ _ _ _ _ L')|].
-      split; [apply (ls_flat _ _ _ _ _ L')|]. exact Old.
+      { apply id_eq_of; auto. destruct (get_if_tag _ _ _ Hg) as [T0 _]. destruct (get_if_tag _ _ _ (ls_get _ _ _ _ _ _ L)) as [T1 _]. congruence. }
+      rewrite (ls_get _ _ _ _ _ _ L) in Hg. injection Hg as <- <-. exists exs'. split; [apply (ls_get _ _ _ _ _ _ L')|].
+      split; [apply (ls_flat _ _ _ _ _ _ L')|]. exact Old.
     - exists exs0. split; [rewrite (fr_other _ _ _ Fr); auto|]. split; [eapply flat_exports_ext; [apply Fr|exact Hf]|].
       intros en k tr Ha Hu. exists k. split; auto. destruct Hf as [_ Hall]. destruct (Hall en k (assoc_in _ _ _ Ha)) as [Lk _].
       eapply UnfK_leaf_ext; [apply Fr|auto|exact Hu].
@@ -201,15 +216,15 @@ Section Hist.
   (** a contribution stays carried when its import's kind is tracked and interfaces only grow *)
   Lemma carried_step a a' c0 :
     (forall n k, In (n, k) (a_imports a) ->
-                 exists y exs, k = KInstance y /\ get_if (a_types a) y = Some (mkif None [] exs) /\ flat_exports (a_types a) exs) ->
+                 exists y oid exs, k = KInstance y /\ get_if (a_types a) y = Some (mkif oid [] exs) /\ flat_exports (a_types a) exs) ->
     assoc (Aggregator.canonical a' (fst c0)) (a_imports a') = assoc (Aggregator.canonical a (fst c0)) (a_imports a) ->
     grows (a_types a) (a_types a') -> carried a c0 -> carried a' c0.
   Proof.
-    intros Hflat Htrack Hgrow Hc i x Hk Hg. destruct (Hc i x Hk Hg) as [y [exs [Ha [Hy Hex]]]].
-    destruct (Hflat _ _ (assoc_in _ _ _ Ha)) as [y1 [exs1 [Ey [Hy1 Hf1]]]]. injection Ey as <-.
-    rewrite Hy in Hy1. injection Hy1 as <-.
-    destruct (Hgrow y exs Hy Hf1) as [exs' [Hy' [Hf' Hold]]].
-    exists y, exs'. split; [now rewrite Htrack|]. split; auto.
+    intros Hflat Htrack Hgrow Hc i x Hk Hg. destruct (Hc i x Hk Hg) as [y [oid [exs [Ha [Hy Hex]]]]].
+    destruct (Hflat _ _ (assoc_in _ _ _ Ha)) as [y1 [oid1 [exs1 [Ey [Hy1 Hf1]]]]]. injection Ey as <-.
+    rewrite Hy in Hy1. injection Hy1 as <- <-.
+    destruct (Hgrow y oid exs Hy Hf1) as [exs' [Hy' [Hf' Hold]]].
+    exists y, oid, exs'. split; [now rewrite Htrack|]. split; auto.
     intros en ek tr Hin Hu. destruct (Hex en ek tr Hin Hu) as [k1 [A1 U1]]. apply (Hold _ _ _ A1 U1).
   Qed.
 
@@ -217,29 +232,53 @@ Section Hist.
   Proof. intros [A B C]. split; auto. Qed.
 
   Lemma flat_contrib_inv c : flat_contrib c ->
-    exists i x, snd (snd c) = KInstance i /\ get_if (fst (snd c)) i = Some x /\ flat_if (fst (snd c)) x /\ ckey c = TInterface i.
-  Proof. intros [_ [_ [i [x [E [G F]]]]]]. exists i, x. unfold ckey. rewrite E. auto. Qed.
+    exists i x, snd (snd c) = KInstance i /\ get_if (fst (snd c)) i = Some x /\ flat_if (fst (snd c)) x /\ ckey c = TInterface i /\
+                (i_id x = None \/ i_id x = Some (fst c)).
+  Proof. intros [_ [_ [i [x [E [G [F D]]]]]]]. exists i, x. unfold ckey. rewrite E. auto. Qed.
 
   (** merging a flat contribution into the (flat) import [(n_e, KInstance y)] *)
-  Lemma merge_into a s done c y exs cc :
+  Lemma merge_into a s done c y oid exs cc :
     HInv a s done -> flat_contrib c ->
-    get_if (a_types a) y = Some (mkif None [] exs) -> flat_exports (a_types a) exs ->
+    get_if (a_types a) y = Some (mkif oid [] exs) -> flat_exports (a_types a) exs ->
     merge_item_kind ord cf fuel (KInstance y) (fst (snd c)) (snd (snd c)) (core_of a s) = AOk (tt, cc) ->
     MInv Col tag0 cc /\ c_imports cc = a_imports a /\ grows (a_types a) (c_types cc) /\
     (forall i0, rm_get (TInterface i0) (c_remapped cc) = rm_get (TInterface i0) (a_remapped a)) /\
-    exists exs', get_if (c_types cc) y = Some (mkif None [] exs') /\
-      forall i x, snd (snd c) = KInstance i -> get_if (fst (snd c)) i = Some x ->
+    c_ifaces cc = a_ifaces a /\
+    exists exs', get_if (c_types cc) y = Some (mkif oid [] exs') /\
+      (forall i x, snd (snd c) = KInstance i -> get_if (fst (snd c)) i = Some x ->
         forall en ek tr, In (en, ek) (i_exports x) -> UnfK (fst (snd c)) ek tr ->
-                         exists k', assoc en exs' = Some k' /\ UnfK (c_types cc) k' tr.
+                         exists k', assoc en exs' = Some k' /\ UnfK (c_types cc) k' tr) /\
+      (forall en k' tr, assoc en exs' = Some k' -> UnfK (c_types cc) k' tr ->
+                        (exists k, assoc en exs = Some k /\ UnfK (a_types a) k tr) \/ exports_of c en tr) /\
+      (forall j, id_idx j <> id_idx y -> get_if (c_types cc) j = get_if (a_types a) j) /\
+      ext (a_types a) (c_types cc).
   Proof.
-    intros HI Hfc Hy Hf H. destruct Hfc as [Ct [OF [i [x [Ek [Hg Hfl]]]]]]. rewrite Ek in H. cbn [merge_item_kind] in H.
-    assert (L : LoopSt Col tag0 y (core_of a s) exs) by (split; [apply (h_minv _ _ _ HI)|exact Hy|exact Hf]).
-    destruct (merge_interface_flat ord cf Col Col_same tag0 Col_tag fuel y _ i x _ cc exs Ct Hg Hfl L H)
-      as [exs' [L' [Fr [K [New Old]]]]].
-    split; [apply (ls_inv _ _ _ _ _ L')|]. split; [apply (fr_imports _ _ _ Fr)|].
-    split; [apply (grows_merge y _ _ exs exs' L L' Fr Old)|]. split; [apply (fr_noif _ _ _ Fr)|].
-    exists exs'. split; [apply (ls_get _ _ _ _ _ L')|].
-    intros i0 x0 E0 G0. rewrite Ek in E0. injection E0 as <-. rewrite Hg in G0. injection G0 as <-. exact New.
+    intros HI Hfc Hy Hf H. destruct Hfc as [Ct [OF [i [x [Ek [Hg [Hfl _]]]]]]]. rewrite Ek in H. cbn [merge_item_kind] in H.
+    assert (L : LoopSt Col tag0 y (core_of a s) oid exs) by (split; [apply (h_minv _ _ _ HI)|exact Hy|exact Hf]).
+    destruct (merge_interface_flat ord cf Col Col_same tag0 Col_tag fuel y _ i x _ cc oid exs Ct Hg Hfl L H)
+      as [exs' [L' [Fr [K [New [Old Conv]]]]]].
+    split; [apply (ls_inv _ _ _ _ _ _ L')|]. split; [apply (fr_imports _ _ _ Fr)|].
+    split; [apply (grows_merge y _ _ oid exs exs' L L' Fr Old)|]. split; [apply (fr_noif _ _ _ Fr)|].
+    split; [apply (fr_ifaces _ _ _ Fr)|].
+    exists exs'. split; [apply (ls_get _ _ _ _ _ _ L')|]. split; [|split; [|split]].
+    - intros i0 x0 E0 G0. rewrite Ek in E0. injection E0 as <-. rewrite Hg in G0. injection G0 as <-. exact New.
+    - intros en k' tr Ha Hu. destruct (Conv en k' tr Ha Hu) as [X|[ek [Hin Hek]]]; [now left|].
+      right. exists i, x, ek. auto.
+    - apply (fr_other _ _ _ Fr).
+    - apply (fr_ext _ _ _ Fr).
+  Qed.
+
+  Lemma NoDup_map_inj {A B} (f : A -> B) l x y : NoDup (map f l) -> In x l -> In y l -> f x = f y -> x = y.
+  Proof.
+    induction l as [|z l IH]; cbn [map]; intros ND Hx Hy E; [contradiction|]. inversion ND as [|? ? Hn ND']; subst.
+    destruct Hx as [->|Hx], Hy as [->|Hy]; auto.
+    - exfalso. apply Hn. rewrite E. now apply in_map.
+    - exfalso. apply Hn. rewrite <- E. now apply in_map.
+  Qed.
+  Lemma kind_key_unique (im : list (str * kind)) k1 k2 y :
+    NoDup (map (fun nk : str * kind => kidx (snd nk)) im) -> In (k1, KInstance y) im -> In (k2, KInstance y) im -> k1 = k2.
+  Proof.
+    intros ND H1 H2. pose proof (NoDup_map_inj _ _ _ _ ND H1 H2 eq_refl) as E. now injection E.
   Qed.
 
   Lemma HInv_assemble a s done c cc im rd' :
@@ -247,31 +286,92 @@ Section Hist.
     grows (a_types a) (c_types cc) ->
     (forall i0 v, rm_get (TInterface i0) (c_remapped cc) = Some v ->
                   rm_get (TInterface i0) (a_remapped a) = Some v \/ TInterface i0 = ckey c) ->
-    (forall n k, In (n, k) im -> exists y exs, k = KInstance y /\ get_if (c_types cc) y = Some (mkif None [] exs) /\
-                                               flat_exports (c_types cc) exs) ->
+    (forall n k, In (n, k) im -> exists y oid exs, k = KInstance y /\ get_if (c_types cc) y = Some (mkif oid [] exs) /\
+                                                   flat_exports (c_types cc) exs) ->
+    (forall n1 y1, In (n1, y1) (c_ifaces cc) -> In n1 (fst c :: map fst done)) ->
     NoDup (map (fun nk : str * kind => kidx (snd nk)) im) ->
     (forall n0, In n0 (map fst done) -> assoc (canon rd' n0) im = assoc (canon (a_redirects a) n0) (a_imports a)) ->
     carried (agg_of cc im rd') c ->
+    (forall n' y0 oid exs0', In (n', KInstance y0) im -> get_if (c_types cc) y0 = Some (mkif oid [] exs0') ->
+       forall en k' tr, assoc en exs0' = Some k' -> UnfK (c_types cc) k' tr ->
+         (exists n0 oid0 exs0 k, In (n0, KInstance y0) (a_imports a) /\ get_if (a_types a) y0 = Some (mkif oid0 [] exs0) /\
+                                 assoc en exs0 = Some k /\ UnfK (a_types a) k tr) \/
+         (n' = canon rd' (fst c) /\ exports_of c en tr)) ->
     HInv (agg_of cc im rd') (c_chk cc) (c :: done).
   Proof.
-    intros HI I' M G K Fl D Tr Cn. split; cbn [a_imports a_redirects a_types a_remapped agg_of map fst].
+    intros HI I' M G K Fl Hif D Tr Cn Hback. split; cbn [a_imports a_redirects a_types a_remapped a_ifaces agg_of map fst].
     - exact I'.
     - now apply MInv_core_of.
     - exact Fl.
+    - exact Hif.
     - exact D.
     - intros i0 v Hv. destruct (K i0 v Hv) as [X|X]; [right; apply (h_ifkeys _ _ _ HI _ _ X) | left; now rewrite X].
     - intros c0 [<-|Hc0]; [exact Cn|].
       apply (carried_step a); [apply (h_flat _ _ _ HI) | | exact G | now apply (h_carried _ _ _ HI)].
       apply Tr. now apply in_map.
+    - intros n y oid exs Hin Hy en k' tr Ha Hu. cbn [a_imports a_types agg_of] in Hin, Hy, Hu.
+      destruct (Hback n y oid exs Hin Hy en k' tr Ha Hu) as [[n0 [oid0 [exs0 [k [Hin0 [Hy0 [Ha0 Hu0]]]]]]] | [En Hex]].
+      + destruct (h_just _ _ _ HI n0 y oid0 exs0 Hin0 Hy0 en k tr Ha0 Hu0) as [c0 [Hc0 [Hcan Hex]]].
+        exists c0. split; [now right|]. split; [|exact Hex]. rewrite canonical_canon. cbn [a_redirects agg_of].
+        rewrite canonical_canon in Hcan.
+        assert (Hk : assoc (canon rd' (fst c0)) im = Some (KInstance y)).
+        { rewrite Tr by (now apply in_map). rewrite Hcan. apply in_assoc; auto. apply (ni_nodup _ _ _ (h_names _ _ _ HI)). }
+        apply (kind_key_unique im _ _ y D (assoc_in _ _ _ Hk) Hin).
+      + exists c. split; [now left|]. split; [|exact Hex]. rewrite canonical_canon. cbn [a_redirects agg_of]. now symmetry.
   Qed.
 
   Lemma kinds_grow a s done cc :
     HInv a s done -> grows (a_types a) (c_types cc) ->
     forall n k, In (n, k) (a_imports a) ->
-      exists y exs, k = KInstance y /\ get_if (c_types cc) y = Some (mkif None [] exs) /\ flat_exports (c_types cc) exs.
+      exists y oid exs, k = KInstance y /\ get_if (c_types cc) y = Some (mkif oid [] exs) /\ flat_exports (c_types cc) exs.
   Proof.
-    intros HI G n k Hin. destruct (h_flat _ _ _ HI n k Hin) as [y [exs [-> [Hy Hf]]]].
-    destruct (G y exs Hy Hf) as [exs' [Hy' [Hf' _]]]. eauto.
+    intros HI G n k Hin. destruct (h_flat _ _ _ HI n k Hin) as [y [oid [exs [-> [Hy Hf]]]]].
+    destruct (G y oid exs Hy Hf) as [exs' [Hy' [Hf' _]]]. eauto 6.
+  Qed.
+
+  (** no registered interface name is on the track of a name that no import is compatible with *)
+  Lemma no_iface_on_track a s done name :
+    HInv a s done -> assoc name (a_imports a) = None -> find_compat name (a_imports a) = None ->
+    assoc name (a_ifaces a) = None /\ find_compat name (ord (a_ifaces a)) = None.
+  Proof.
+    intros HI Ea Ef. pose proof (h_names _ _ _ HI) as I0.
+    assert (Hno : forall n1, In n1 (map fst done) -> compat n1 name = true -> False).
+    { intros n1 Hn1 C. pose proof (ni_total _ _ _ I0 n1 Hn1) as Hk. pose proof (canon_compat _ _ _ n1 I0) as Cc.
+      set (k := canon (a_redirects a) n1) in *.
+      assert (Ck : compat name k = true) by (rewrite compat_sym in C; apply (compat_trans _ _ _ C Cc)).
+      destruct (str_eqb name k) eqn:E.
+      - apply SemverProofs.str_eqb_eq in E. subst k. rewrite <- E in Hk. apply assoc_none_keys in Ea. contradiction.
+      - apply SemverProofs.str_eqb_neq in E. destruct (compat_on_track _ _ Ck E) as [ak [nv [ev [An Ae]]]].
+        unfold find_compat in Ef. rewrite An in Ef. apply in_keys_assoc in Hk as [v Hv]. apply assoc_in in Hv.
+        now apply (find_on_track_none _ _ Ef k v ak ev Hv Ae). }
+    split.
+    - destruct (assoc name (a_ifaces a)) as [y1|] eqn:E; auto. exfalso.
+      apply (Hno name); [apply (h_ifaces _ _ _ HI name y1 (assoc_in _ _ _ E)) | apply compat_refl].
+    - destruct (find_compat name (ord (a_ifaces a))) as [[n1 y1]|] eqn:E; auto. exfalso.
+      unfold find_compat in E. destruct (alt_key name) as [[ak nv]|] eqn:An; [|discriminate].
+      apply find_on_track_some in E as [Hin [ev Ae]]. apply ord_incl in Hin.
+      apply (Hno n1); [apply (h_ifaces _ _ _ HI n1 y1 Hin)|]. apply (compat_same_key _ _ _ _ _ _ Ae An). reflexivity.
+  Qed.
+
+  (** an entry of an unchanged flat interface has the tree it had *)
+  Lemma back_same T T' exs0 en k tr :
+    flat_exports T exs0 -> ext T T' -> assoc en exs0 = Some k -> UnfK T' k tr -> UnfK T k tr.
+  Proof.
+    intros [_ Hall] E Ha Hu. destruct (Hall en k (assoc_in _ _ _ Ha)) as [Lk [tr0 [U0 _]]].
+    assert (tr = tr0) as -> by (eapply UnfK_same_agg; [exact Lk|exact Hu|]; eapply UnfK_leaf_ext; eauto). exact U0.
+  Qed.
+
+  (** the converse bookkeeping for an interface that the step did not touch *)
+  Lemma back_untouched a s done T' n' y0 oid exs0' :
+    HInv a s done -> ext (a_types a) T' -> In (n', KInstance y0) (a_imports a) ->
+    get_if T' y0 = get_if (a_types a) y0 -> get_if T' y0 = Some (mkif oid [] exs0') ->
+    forall en k' tr, assoc en exs0' = Some k' -> UnfK T' k' tr ->
+      exists n0 oid0 exs0 k, In (n0, KInstance y0) (a_imports a) /\ get_if (a_types a) y0 = Some (mkif oid0 [] exs0) /\
+                             assoc en exs0 = Some k /\ UnfK (a_types a) k tr.
+  Proof.
+    intros HI E Hin Hsame Hy' en k' tr Ha Hu. destruct (h_flat _ _ _ HI _ _ Hin) as [y1 [oid1 [exs1 [Ey [Hy1 Hf1]]]]].
+    injection Ey as <-. rewrite Hsame, Hy1 in Hy'. injection Hy' as <- <-.
+    exists n', oid1, exs1, k'. repeat split; auto. eapply back_same; eauto.
   Qed.
 
   Lemma HInv_step a s done c a' s' :
@@ -284,18 +384,33 @@ Section Hist.
     pose proof (h_names _ _ _ HI) as I0.
     pose proof (aggregate_NStep ord cf fuel a s name t k a' s' OF (ni_nodup _ _ _ I0) H) as NS.
     pose proof (NStep_preserves _ _ _ _ _ _ I0 NS) as I'.
+    assert (Hif_old : forall cc, c_ifaces cc = a_ifaces a ->
+                                 forall n1 y1, In (n1, y1) (c_ifaces cc) -> In n1 (name :: map fst done)).
+    { intros cc E n1 y1 Hin. rewrite E in Hin. right. apply (h_ifaces _ _ _ HI n1 y1 Hin). }
     apply aggregate_cases in H as [[existing [cc [Ea [Hm [-> ->]]]]] | [[en [ek [cc [im [rd' [Ea [Ef [Hm [Hr [-> ->]]]]]]]]]] | [k' [cc [Ea [Ef [Hm [Hh [-> ->]]]]]]]]].
     - (* the name is an import already *)
-      destruct (h_flat _ _ _ HI name existing (assoc_in _ _ _ Ea)) as [y [exs [-> [Hy Hf]]]].
-      destruct (merge_into a s done (name, (t, k)) y exs cc HI Hfc Hy Hf Hm) as [M [Him [G [Kf [exs' [Hy' New]]]]]].
-      cbn [a_imports a_redirects agg_of] in I'. apply (HInv_assemble a s); auto.
+      destruct (h_flat _ _ _ HI name existing (assoc_in _ _ _ Ea)) as [y [oid [exs [-> [Hy Hf]]]]].
+      destruct (merge_into a s done (name, (t, k)) y oid exs cc HI Hfc Hy Hf Hm)
+        as [M [Him [G [Kf [Hifc [exs' [Hy' [New [Conv [Foth Eext]]]]]]]]]].
+      cbn [a_imports a_redirects agg_of] in I'. rewrite Him in *.
+      apply (HInv_assemble a s); auto.
       + intros i0 v Hv. left. now rewrite <- Kf.
-      + rewrite Him. now apply (kinds_grow a s done).
-      + rewrite Him. apply (h_distinct _ _ _ HI).
-      + intros n0 _. now rewrite Him.
-      + intros i x Ek Hg. exists y, exs'. rewrite canonical_canon. cbn [a_imports a_redirects a_types agg_of fst snd].
-        rewrite (canon_key _ _ _ name I0 (assoc_in_keys _ _ _ Ea)). rewrite Him.
+      + now apply (kinds_grow a s done).
+      + now apply Hif_old.
+      + apply (h_distinct _ _ _ HI).
+      + intros i x Ek Hg. exists y, oid, exs'. rewrite canonical_canon. cbn [a_imports a_redirects a_types agg_of fst snd].
+        rewrite (canon_key _ _ _ name I0 (assoc_in_keys _ _ _ Ea)).
         split; auto. split; auto. exact (New i x Ek Hg).
+      + intros n' y0 oid0 exs0' Hin' Hy0' en0 k0 tr Ha Hu. cbn [fst].
+        destruct (Nat.eq_dec (id_idx y0) (id_idx y)) as [E|N].
+        * assert (y0 = y) as ->.
+          { apply id_eq_of; auto. destruct (get_if_tag _ _ _ Hy0') as [T0 _]. destruct (get_if_tag _ _ _ Hy') as [T1 _]. congruence. }
+          rewrite Hy' in Hy0'. injection Hy0' as <- <-.
+          destruct (Conv en0 k0 tr Ha Hu) as [[k1 [A1 U1]]|Hex].
+          -- left. exists name, oid, exs, k1. repeat split; auto. now apply assoc_in.
+          -- right. split; auto. rewrite (canon_key _ _ _ name I0 (assoc_in_keys _ _ _ Ea)).
+             apply (kind_key_unique _ _ _ y (h_distinct _ _ _ HI) Hin' (assoc_in _ _ _ Ea)).
+        * left. apply (back_untouched a s done (c_types cc) n' y0 oid0 exs0' HI Eext Hin' (Foth _ N) Hy0' en0 k0 tr Ha Hu).
     - (* a semver-compatible import *)
       assert (Hen : In (en, ek) (a_imports a) /\ compat name en = true).
       { unfold find_compat in Ef. destruct (alt_key name) as [[ak nv]|] eqn:An; [|discriminate].
@@ -303,69 +418,114 @@ Section Hist.
       destruct Hen as [Hin Hcompat].
       assert (Hek : assoc en (a_imports a) = Some ek) by (apply in_assoc; [apply (ni_nodup _ _ _ I0)|exact Hin]).
       assert (Hnin : ~ In name (map fst (a_imports a))) by now apply assoc_none_keys.
-      destruct (h_flat _ _ _ HI en ek Hin) as [y [exs [-> [Hy Hf]]]].
-      destruct (merge_into a s done (name, (t, k)) y exs cc HI Hfc Hy Hf Hm) as [M [Him [G [Kf [exs' [Hy' New]]]]]].
+      destruct (h_flat _ _ _ HI en ek Hin) as [y [oid [exs [-> [Hy Hf]]]]].
+      destruct (merge_into a s done (name, (t, k)) y oid exs cc HI Hfc Hy Hf Hm)
+        as [M [Him [G [Kf [Hifc [exs' [Hy' [New [Conv [Foth Eext]]]]]]]]]].
       rewrite Him in Hr. unfold rename in Hr.
       destruct (alt_key name) as [[ak nv]|]; [|discriminate]. destruct (alt_key en) as [[ak' ev]|]; [|discriminate].
       destruct (version_gtb nv ev).
       + (* the new name takes over *)
         rewrite Hek in Hr. injection Hr as <- <-. cbn [a_imports a_redirects agg_of] in I'.
+        assert (Hnr : assoc name (rem en (a_imports a)) = None).
+        { apply assoc_none_keys. intros X. apply in_keys_rem in X; [tauto|apply (ni_nodup _ _ _ I0)]. }
+        assert (Dim : NoDup (map (fun nk : str * kind => kidx (snd nk)) (ins name (KInstance y) (rem en (a_imports a))))).
+        { rewrite (ins_new_app _ _ _ Hnr), map_app. cbn [map snd kidx].
+          pose proof (rem_perm en (KInstance y) _ (ni_nodup _ _ _ I0) Hek) as P.
+          apply (Permutation_map (fun nk : str * kind => kidx (snd nk))) in P.
+          pose proof (Permutation_NoDup P (h_distinct _ _ _ HI)) as ND. cbn [map snd kidx] in ND.
+          eapply Permutation_NoDup; [|exact ND]. apply Permutation_cons_append. }
+        assert (Hk' : In name (map fst (ins name (KInstance y) (rem en (a_imports a))))).
+        { eapply assoc_in_keys. apply assoc_ins_same. }
         apply (HInv_assemble a s); auto.
         * intros i0 v Hv. left. now rewrite <- Kf.
         * intros n0 k0 Hk0. apply in_ins in Hk0 as [[-> ->]|Hk0]; [now apply (kinds_grow a s done cc HI G en)|].
           apply in_rem in Hk0. now apply (kinds_grow a s done cc HI G n0).
-        * assert (Hnr : assoc name (rem en (a_imports a)) = None).
-          { apply assoc_none_keys. intros X. apply in_keys_rem in X; [tauto|apply (ni_nodup _ _ _ I0)]. }
-          rewrite (ins_new_app _ _ _ Hnr), map_app. cbn [map snd kidx].
-          pose proof (rem_perm en (KInstance y) _ (ni_nodup _ _ _ I0) Hek) as P.
-          apply (Permutation_map (fun nk : str * kind => kidx (snd nk))) in P.
-          pose proof (Permutation_NoDup P (h_distinct _ _ _ HI)) as ND. cbn [map snd kidx] in ND.
-          eapply Permutation_NoDup; [|exact ND]. apply Permutation_cons_append.
+        * now apply Hif_old.
         * intros n0 Hn0. apply (rename_high_track _ _ _ I0 name en (KInstance y) Hnin Hek); auto.
-        * intros i x Ek Hg. exists y, exs'. rewrite canonical_canon. cbn [a_imports a_redirects a_types agg_of fst snd].
-          assert (Hk' : In name (map fst (ins name (KInstance y) (rem en (a_imports a))))).
-          { eapply assoc_in_keys. apply assoc_ins_same. }
+        * intros i x Ek Hg. exists y, oid, exs'. rewrite canonical_canon. cbn [a_imports a_redirects a_types agg_of fst snd].
           rewrite (canon_key _ _ _ name I' Hk'). rewrite assoc_ins_same. split; auto. split; auto. exact (New i x Ek Hg).
+        * intros n' y0 oid0 exs0' Hin' Hy0' en0 k0 tr Ha Hu. cbn [fst].
+          destruct (Nat.eq_dec (id_idx y0) (id_idx y)) as [E|N].
+          -- assert (y0 = y) as ->.
+             { apply id_eq_of; auto. destruct (get_if_tag _ _ _ Hy0') as [T0 _]. destruct (get_if_tag _ _ _ Hy') as [T1 _]. congruence. }
+             rewrite Hy' in Hy0'. injection Hy0' as <- <-.
+             destruct (Conv en0 k0 tr Ha Hu) as [[k1 [A1 U1]]|Hex].
+             ++ left. exists en, oid, exs, k1. repeat split; auto.
+             ++ right. split; auto. rewrite (canon_key _ _ _ name I' Hk').
+                apply (kind_key_unique _ _ _ y Dim Hin'). apply assoc_in. apply assoc_ins_same.
+          -- left. apply in_ins in Hin' as [[_ X]|Hin']; [injection X as ->; congruence|]. apply in_rem in Hin'.
+             apply (back_untouched a s done (c_types cc) n' y0 oid0 exs0' HI Eext Hin' (Foth _ N) Hy0' en0 k0 tr Ha Hu).
       + (* the existing name stays *)
         injection Hr as <- <-. cbn [a_imports a_redirects agg_of] in I'.
         apply (HInv_assemble a s); auto.
         * intros i0 v Hv. left. now rewrite <- Kf.
         * now apply (kinds_grow a s done).
+        * now apply Hif_old.
         * apply (h_distinct _ _ _ HI).
         * intros n0 Hn0. now rewrite (rename_low_track _ _ _ I0 name en (KInstance y) Hnin Hek Hcompat n0 Hn0).
-        * intros i x Ek Hg. exists y, exs'. rewrite canonical_canon. cbn [a_imports a_redirects a_types agg_of fst snd].
+        * intros i x Ek Hg. exists y, oid, exs'. rewrite canonical_canon. cbn [a_imports a_redirects a_types agg_of fst snd].
           unfold canon. rewrite assoc_ins_same. split; auto. split; auto. exact (New i x Ek Hg).
+        * intros n' y0 oid0 exs0' Hin' Hy0' en0 k0 tr Ha Hu. cbn [fst].
+          destruct (Nat.eq_dec (id_idx y0) (id_idx y)) as [E|N].
+          -- assert (y0 = y) as ->.
+             { apply id_eq_of; auto. destruct (get_if_tag _ _ _ Hy0') as [T0 _]. destruct (get_if_tag _ _ _ Hy') as [T1 _]. congruence. }
+             rewrite Hy' in Hy0'. injection Hy0' as <- <-.
+             destruct (Conv en0 k0 tr Ha Hu) as [[k1 [A1 U1]]|Hex].
+             ++ left. exists en, oid, exs, k1. repeat split; auto.
+             ++ right. split; auto. unfold canon. rewrite assoc_ins_same.
+                apply (kind_key_unique _ _ _ y (h_distinct _ _ _ HI) Hin' Hin).
+          -- left. apply (back_untouched a s done (c_types cc) n' y0 oid0 exs0' HI Eext Hin' (Foth _ N) Hy0' en0 k0 tr Ha Hu).
     - (* a new import *)
-      destruct (flat_contrib_inv _ Hfc) as [i [x [Ek [Hg [Hfl Eck]]]]]. cbn [fst snd] in Ek, Hg, Hfl. subst k.
+      destruct (flat_contrib_inv _ Hfc) as [i [x [Ek [Hg [Hfl [Eck Hidx]]]]]]. cbn [fst snd] in Ek, Hg, Hfl, Hidx. subst k.
       destruct fuel as [|f]; [discriminate|]. cbn [remap_item_kind] in Hm.
       apply bindM_ok in Hm as [y [c1 [H1 H2]]]. apply ret_ok in H2 as [-> ->].
       assert (Hnone : rm_get (TInterface i) (c_remapped (core_of a s)) = None).
       { cbn [c_remapped core_of]. destruct (rm_get (TInterface i) (a_remapped a)) eqn:X; auto.
         apply (h_ifkeys _ _ _ HI) in X. rewrite <- Eck in X. contradiction. }
-      destruct (remap_interface_flat ord cf Col Col_same tag0 f t i x _ y c1 Ct Hg Hfl (h_minv _ _ _ HI) Hnone H1)
-        as [exs [L [Hidx [K [New [E [Him [Hif [Hsame [Hoth Hthis]]]]]]]]]].
+      assert (Hlook : forall nm, i_id x = Some nm ->
+                                 assoc nm (c_ifaces (core_of a s)) = None /\ find_compat nm (ord (c_ifaces (core_of a s))) = None).
+      { intros nm Hnm. destruct Hidx as [X|X]; [congruence|]. assert (nm = name) as -> by congruence.
+        cbn [c_ifaces core_of]. now apply (no_iface_on_track a s done). }
+      destruct (remap_interface_flat ord cf Col Col_same tag0 f t i x _ y c1 Ct Hg Hfl (h_minv _ _ _ HI) Hnone Hlook H1)
+        as [exs [L [Hidy [K [New [Prov [E [Him [Hif [Hsame [Hoth Hthis]]]]]]]]]]].
       cbn [c_types c_imports c_ifaces c_remapped core_of] in *.
       assert (G : grows (a_types a) (c_types c1)) by (apply grows_unchanged; auto).
       rewrite Him in *. cbn [a_imports a_redirects agg_of] in I'.
       assert (Hnin : ~ In name (map fst (a_imports a))) by now apply assoc_none_keys.
+      assert (Hk' : In name (map fst (ins name (KInstance y) (a_imports a)))).
+      { eapply assoc_in_keys. apply assoc_ins_same. }
+      assert (Hold_lt : forall n0 y0, In (n0, KInstance y0) (a_imports a) -> (id_idx y0 < length (t_interfaces (a_types a)))%nat).
+      { intros n0 y0 Hin0. destruct (h_flat _ _ _ HI n0 _ Hin0) as [y1 [oid1 [exs1 [Ey [Hy1 _]]]]]. injection Ey as <-.
+        now destruct (get_if_tag _ _ _ Hy1). }
       apply (HInv_assemble a s); auto.
-      + apply (ls_inv _ _ _ _ _ L).
+      + apply (ls_inv _ _ _ _ _ _ L).
       + intros i0 v Hv. destruct (id_eqb i0 i) eqn:Ei.
         * apply ideqb_eq in Ei. subst i0. right. now rewrite Eck.
         * left. rewrite <- Hoth; auto. intros ->. rewrite ideqb_refl in Ei. discriminate.
       + intros n0 k0 Hk0. apply in_ins in Hk0 as [[-> ->]|Hk0]; [|now apply (kinds_grow a s done c1 HI G n0)].
-        exists y, exs. split; auto. split; [apply (ls_get _ _ _ _ _ L) | apply (ls_flat _ _ _ _ _ L)].
+        exists y, (i_id x), exs. split; auto. split; [apply (ls_get _ _ _ _ _ _ L) | apply (ls_flat _ _ _ _ _ _ L)].
+      + intros n1 y1 Hin1. cbn [fst]. rewrite Hif in Hin1. destruct (i_id x) as [nm|] eqn:Hnm.
+        * apply in_ins in Hin1 as [[-> _]|Hin1]; [|right; apply (h_ifaces _ _ _ HI n1 y1 Hin1)].
+          destruct Hidx as [X|X]; [discriminate|]. injection X as ->. now left.
+        * right. apply (h_ifaces _ _ _ HI n1 y1 Hin1).
       + rewrite (ins_new_app _ _ _ Ea), map_app. cbn [map snd kidx]. apply NoDup_app_one_tail; [apply (h_distinct _ _ _ HI)|].
         intros X. apply in_map_iff in X as [[n0 k0] [E0 Hin0]]. cbn [snd] in E0.
-        destruct (h_flat _ _ _ HI n0 k0 Hin0) as [y0 [exs0 [-> [Hy0 _]]]]. cbn [kidx] in E0.
+        destruct (h_flat _ _ _ HI n0 k0 Hin0) as [y0 [oid0 [exs0 [-> [Hy0 _]]]]]. cbn [kidx] in E0.
         destruct (get_if_tag _ _ _ Hy0) as [_ Hlt]. lia.
       + intros n0 Hn0. rewrite assoc_ins_other; auto. intros X. apply Hnin. rewrite X. apply (ni_total _ _ _ I0). exact Hn0.
       + intros i1 x1 Ek1 Hg1. cbn [fst snd] in *. injection Ek1 as <-. rewrite Hg in Hg1. injection Hg1 as <-.
-        exists y, exs. rewrite canonical_canon. cbn [a_imports a_redirects a_types agg_of fst snd].
-        assert (Hk' : In name (map fst (ins name (KInstance y) (a_imports a)))).
-        { eapply assoc_in_keys. apply assoc_ins_same. }
-        rewrite (canon_key _ _ _ name I' Hk'). rewrite assoc_ins_same. split; auto. split; [apply (ls_get _ _ _ _ _ L)|].
+        exists y, (i_id x), exs. rewrite canonical_canon. cbn [a_imports a_redirects a_types agg_of fst snd].
+        rewrite (canon_key _ _ _ name I' Hk'). rewrite assoc_ins_same. split; auto. split; [apply (ls_get _ _ _ _ _ _ L)|].
         exact New.
+      + intros n' y0 oid0 exs0' Hin' Hy0' en0 k0 tr Ha Hu. cbn [fst].
+        apply in_ins in Hin' as [[-> X]|Hin'].
+        * injection X as ->. right. rewrite (canon_key _ _ _ name I' Hk'). split; auto.
+          rewrite (ls_get _ _ _ _ _ _ L) in Hy0'. injection Hy0' as <- <-.
+          destruct (Prov en0 k0 tr Ha Hu) as [ek [Hin1 Hu1]]. exists i, x, ek. auto.
+        * left. assert (Hs0 : get_if (c_types c1) y0 = get_if (a_types a) y0).
+          { destruct (h_flat _ _ _ HI n' _ Hin') as [y1 [oid1 [exs1 [Ey [Hy1 _]]]]]. injection Ey as <-.
+            now rewrite (Hsame _ _ Hy1). }
+          apply (back_untouched a s done (c_types c1) n' y0 oid0 exs0' HI E Hin' Hs0 Hy0' en0 k0 tr Ha Hu).
   Qed.
 
   (** ** Whole histories *)
@@ -401,8 +561,8 @@ Section Hist.
         intros x y. apply UnfK_mono. apply Nat.le_max_l. }
       now rewrite X.
   Qed.
-  Lemma flat_inst T y exs :
-    get_if T y = Some (mkif None [] exs) -> flat_exports T exs ->
+  Lemma flat_inst T y oid exs :
+    get_if T y = Some (mkif oid [] exs) -> flat_exports T exs ->
     exists e, UnfK T (KInstance y) (XInst e) /\
               forall n k tr, assoc n exs = Some k -> UnfK T k tr -> assoc n e = Some tr.
   Proof.
@@ -441,11 +601,11 @@ Section Hist.
     intros HF ND H c Hc tr Hu.
     pose proof (HInv_history l _ _ _ [] a s HInv_nil HF ND (fun _ _ X => X) H) as HI. rewrite app_nil_r in HI.
     assert (Hfc : flat_contrib c) by (rewrite Forall_forall in HF; auto).
-    destruct Hfc as [Ct [_ [i [x [Ek [Hg [_ [_ [NDx Hall]]]]]]]]].
-    destruct (h_carried _ _ _ HI c (proj1 (in_rev _ _) Hc) i x Ek Hg) as [y [exs [Ha [Hy Hex]]]].
-    destruct (h_flat _ _ _ HI _ _ (assoc_in _ _ _ Ha)) as [y1 [exs1 [Ey [Hy1 Hf1]]]]. injection Ey as <-.
-    rewrite Hy in Hy1. injection Hy1 as <-.
-    destruct (flat_inst _ _ _ Hy Hf1) as [e [Ue He]].
+    destruct Hfc as [Ct [_ [i [x [Ek [Hg [[_ [NDx Hall]] _]]]]]]].
+    destruct (h_carried _ _ _ HI c (proj1 (in_rev _ _) Hc) i x Ek Hg) as [y [oid [exs [Ha [Hy Hex]]]]].
+    destruct (h_flat _ _ _ HI _ _ (assoc_in _ _ _ Ha)) as [y1 [oid1 [exs1 [Ey [Hy1 Hf1]]]]]. injection Ey as <-.
+    rewrite Hy in Hy1. injection Hy1 as <- <-.
+    destruct (flat_inst _ _ _ _ Hy Hf1) as [e [Ue He]].
     exists (KInstance y), (XInst e). split; [exact Ha|]. split; [exact Ue|].
     rewrite Ek in Hu. destruct Hu as [g Hu]. destruct g as [|g]; [discriminate|]. cbn [unfold] in Hu. rewrite Hg in Hu.
     destruct (map_snd (unfold g (fst (snd c))) (i_exports x)) as [er|] eqn:Er; [|discriminate]. injection Hu as <-.
@@ -458,36 +618,139 @@ Section Hist.
   Qed.
 
   (** ... and the export names of a merge step are the union, in first-seen order *)
-  Theorem flat_merge_is_union a s done c a' s' y exs :
+  Theorem flat_merge_is_union a s done c a' s' y oid exs :
     HInv a s done -> flat_contrib c ->
     (assoc (fst c) (a_imports a) = Some (KInstance y) \/
      (assoc (fst c) (a_imports a) = None /\ exists en, find_compat (fst c) (a_imports a) = Some (en, KInstance y))) ->
-    get_if (a_types a) y = Some (mkif None [] exs) ->
+    get_if (a_types a) y = Some (mkif oid [] exs) ->
     aggregate ord cf fuel a s (fst c) (fst (snd c)) (snd (snd c)) = AOk (a', s') ->
     forall i x, snd (snd c) = KInstance i -> get_if (fst (snd c)) i = Some x ->
-      exists exs', get_if (a_types a') y = Some (mkif None [] exs') /\
+      exists exs', get_if (a_types a') y = Some (mkif oid [] exs') /\
                    map fst exs' = first_seen_union (map fst exs) (map fst (i_exports x)).
   Proof.
     intros HI Hfc Hwhere Hy H i x Ek Hg. destruct c as [name [t k]]. cbn [fst snd] in *.
     assert (Hf : flat_exports (a_types a) exs).
     { destruct Hwhere as [Ha|[_ [en Hf]]].
-      - destruct (h_flat _ _ _ HI _ _ (assoc_in _ _ _ Ha)) as [y1 [exs1 [Ey [Hy1 Hf1]]]]. injection Ey as <-. congruence.
+      - destruct (h_flat _ _ _ HI _ _ (assoc_in _ _ _ Ha)) as [y1 [oid1 [exs1 [Ey [Hy1 Hf1]]]]]. injection Ey as <-. congruence.
       - unfold find_compat in Hf. destruct (alt_key name) as [[ak nv]|]; [|discriminate].
         apply find_on_track_some in Hf as [Hin _].
-        destruct (h_flat _ _ _ HI _ _ Hin) as [y1 [exs1 [Ey [Hy1 Hf1]]]]. injection Ey as <-. congruence. }
-    pose proof Hfc as [Ct [_ [i0 [x0 [Ek0 [Hg0 Hfl]]]]]]. cbn [fst snd] in *. rewrite Ek in Ek0. injection Ek0 as <-.
+        destruct (h_flat _ _ _ HI _ _ Hin) as [y1 [oid1 [exs1 [Ey [Hy1 Hf1]]]]]. injection Ey as <-. congruence. }
+    pose proof Hfc as [Ct [_ [i0 [x0 [Ek0 [Hg0 [Hfl _]]]]]]]. cbn [fst snd] in *. rewrite Ek in Ek0. injection Ek0 as <-.
     rewrite Hg in Hg0. injection Hg0 as <-.
-    assert (L : LoopSt Col tag0 y (core_of a s) exs) by (split; [apply (h_minv _ _ _ HI)|exact Hy|exact Hf]).
+    assert (L : LoopSt Col tag0 y (core_of a s) oid exs) by (split; [apply (h_minv _ _ _ HI)|exact Hy|exact Hf]).
     assert (Hmerge : forall cc, merge_item_kind ord cf fuel (KInstance y) t k (core_of a s) = AOk (tt, cc) ->
-                                exists exs', get_if (c_types cc) y = Some (mkif None [] exs') /\
+                                exists exs', get_if (c_types cc) y = Some (mkif oid [] exs') /\
                                              map fst exs' = first_seen_union (map fst exs) (map fst (i_exports x))).
     { intros cc Hm. rewrite Ek in Hm. cbn [merge_item_kind] in Hm.
-      destruct (merge_interface_flat ord cf Col Col_same tag0 Col_tag fuel y t i x _ cc exs Ct Hg Hfl L Hm)
+      destruct (merge_interface_flat ord cf Col Col_same tag0 Col_tag fuel y t i x _ cc oid exs Ct Hg Hfl L Hm)
         as [exs' [L' [_ [K _]]]].
-      exists exs'. split; [apply (ls_get _ _ _ _ _ L') | exact K]. }
+      exists exs'. split; [apply (ls_get _ _ _ _ _ _ L') | exact K]. }
     apply aggregate_cases in H as [[existing [cc [Ea [Hm [-> ->]]]]] | [[en [ek [cc [im [rd' [Ea [Ef [Hm [Hr [-> ->]]]]]]]]]] | [k' [cc [Ea [Ef _]]]]]].
     - destruct Hwhere as [Ha|[Ha _]]; [|congruence]. rewrite Ea in Ha. injection Ha as ->. now apply Hmerge.
     - destruct Hwhere as [Ha|[_ [en' Hf']]]; [congruence|]. rewrite Ef in Hf'. injection Hf' as _ ->. now apply Hmerge.
     - destruct Hwhere as [Ha|[_ [en' Hf']]]; congruence.
+  Qed.
+
+  (** ** Two successful orders of one flat multiset agree *)
+  Lemma flat_inst_conv T y oid exs :
+    get_if T y = Some (mkif oid [] exs) -> flat_exports T exs ->
+    exists e, UnfK T (KInstance y) (XInst e) /\
+              (forall n k tr, assoc n exs = Some k -> UnfK T k tr -> assoc n e = Some tr) /\
+              (forall n b, In (n, b) e -> exists k, assoc n exs = Some k /\ UnfK T k b).
+  Proof.
+    intros Hy Hf. destruct (flat_exports_unfold T exs Hf) as [g [e He]].
+    destruct (flat_inst T y oid exs Hy Hf) as [e0 [[g0 U0] H0]].
+    assert (e0 = e) as ->.
+    { apply (UnfK_mono _ _ _ g0 (Nat.max g0 (S g))) in U0; [|apply Nat.le_max_l].
+      assert (U1 : unfold (Nat.max g0 (S g)) T (KInstance y) = Some (XInst e)).
+      { apply (UnfK_mono _ _ _ (S g)); [apply Nat.le_max_r|]. cbn [unfold]. rewrite Hy. cbn [i_exports]. now rewrite He. }
+      congruence. }
+    exists e. split; [now exists g0|]. split; [exact H0|].
+    intros n b Hin. destruct (map_snd_in _ _ _ _ _ He Hin) as [k [Hk Hb]]. exists k. split; [|now exists g].
+    destruct Hf as [ND _]. now apply in_assoc.
+  Qed.
+
+  Lemma sub_of_justified a s done a' s' done' n :
+    HInv a s done -> HInv a' s' done' -> (forall c, In c done' -> In c done) ->
+    (forall c, In c done -> Aggregator.canonical a (fst c) = Aggregator.canonical a' (fst c)) ->
+    In n (map fst done) -> Aggregator.canonical a n = Aggregator.canonical a' n ->
+    forall y oid exs y' oid' exs' e e',
+      assoc (Aggregator.canonical a n) (a_imports a) = Some (KInstance y) -> get_if (a_types a) y = Some (mkif oid [] exs) ->
+      assoc (Aggregator.canonical a' n) (a_imports a') = Some (KInstance y') -> get_if (a_types a') y' = Some (mkif oid' [] exs') ->
+      (forall n0 k tr, assoc n0 exs = Some k -> UnfK (a_types a) k tr -> assoc n0 e = Some tr) ->
+      (forall n0 b, In (n0, b) e' -> exists k, assoc n0 exs' = Some k /\ UnfK (a_types a') k b) ->
+      SubCM (XInst e) (XInst e').
+  Proof.
+    intros HI HI' Hsub Hagree Hn Hcn y oid exs y' oid' exs' e e' Ha Hy Ha' Hy' He He'.
+    constructor. intros k b Hin. destruct (He' k b Hin) as [k' [Ak' Uk']].
+    destruct (h_just _ _ _ HI' _ _ _ _ (assoc_in _ _ _ Ha') Hy' k k' b Ak' Uk') as [c [Hc [Hcan [i [x [ek [Ek [Hg [Hek Hu]]]]]]]]].
+    pose proof (Hsub c Hc) as Hcd.
+    destruct (h_carried _ _ _ HI c Hcd i x Ek Hg) as [y1 [oid1 [exs1 [Ha1 [Hy1 Hex1]]]]].
+    assert (Ec : Aggregator.canonical a (fst c) = Aggregator.canonical a n) by (rewrite (Hagree c Hcd), Hcan; now symmetry).
+    rewrite Ec, Ha in Ha1. injection Ha1 as <-. rewrite Hy in Hy1. injection Hy1 as <- <-.
+    destruct (Hex1 k ek b Hek Hu) as [k1 [A1 U1]].
+    exists b. split; [apply (He _ _ _ A1 U1)|].
+    destruct (h_flat _ _ _ HI _ _ (assoc_in _ _ _ Ha)) as [y2 [oid2 [exs2 [Ey [Hy2 [_ Hall]]]]]]. injection Ey as <-.
+    rewrite Hy in Hy2. injection Hy2 as <- <-.
+    destruct (Hall k k1 (assoc_in _ _ _ A1)) as [Lk [tr0 [U0 R0]]].
+    assert (tr0 = b) as <- by (eapply UnfK_same_agg; eauto).
+    eapply leaf_tree_refl; eauto.
+  Qed.
+
+  Lemma flat_owner_free l : Forall flat_contrib l -> Forall (fun c : contrib => owner_free (fst (snd c))) l.
+  Proof. apply Forall_impl. intros c [_ [H _]]. exact H. Qed.
+
+  Lemma import_of a s done n :
+    HInv a s done -> In n (map fst done) ->
+    exists y oid exs e, assoc (Aggregator.canonical a n) (a_imports a) = Some (KInstance y) /\
+      get_if (a_types a) y = Some (mkif oid [] exs) /\ UnfK (a_types a) (KInstance y) (XInst e) /\
+      (forall n0 k tr, assoc n0 exs = Some k -> UnfK (a_types a) k tr -> assoc n0 e = Some tr) /\
+      (forall n0 b, In (n0, b) e -> exists k, assoc n0 exs = Some k /\ UnfK (a_types a) k b).
+  Proof.
+    intros HI Hn. pose proof (ni_total _ _ _ (h_names _ _ _ HI) n Hn) as Hk. rewrite <- canonical_canon in Hk.
+    apply in_keys_assoc in Hk as [k Hk]. destruct (h_flat _ _ _ HI _ _ (assoc_in _ _ _ Hk)) as [y [oid [exs [-> [Hy Hf]]]]].
+    destruct (flat_inst_conv _ _ _ _ Hy Hf) as [e [U [A B]]]. exists y, oid, exs, e. auto.
+  Qed.
+
+  (** Order independence for flat multisets, given that both orders succeed: the canonical names agree, and the merged
+      requirement of every contributed name is the same tree up to the order of its exports (mutual subtypes). *)
+  Theorem flat_order_indep l l' a s a' s' :
+    Forall flat_contrib l -> NoDup (map ckey l) -> Permutation l l' ->
+    aggregate_all ord cf fuel (agg0 tag0) st0 l 0 = inl (a, s) ->
+    aggregate_all ord cf fuel (agg0 tag0) st0 l' 0 = inl (a', s') ->
+    forall n, In n (map fst l) ->
+      Aggregator.canonical a n = Aggregator.canonical a' n /\
+      exists m m' tm tm', assoc (Aggregator.canonical a n) (imports a) = Some m /\
+                          assoc (Aggregator.canonical a' n) (imports a') = Some m' /\
+                          UnfK (a_types a) m tm /\ UnfK (a_types a') m' tm' /\ SubCM tm tm' /\ SubCM tm' tm.
+  Proof.
+    intros HF ND P H H' n Hn.
+    assert (HF' : Forall flat_contrib l') by (eapply Permutation_Forall; eauto).
+    assert (ND' : NoDup (map ckey l')) by (eapply Permutation_NoDup; [apply Permutation_map; exact P|exact ND]).
+    pose proof (HInv_history l _ _ _ [] a s HInv_nil HF ND (fun _ _ X => X) H) as HI. rewrite app_nil_r in HI.
+    pose proof (HInv_history l' _ _ _ [] a' s' HInv_nil HF' ND' (fun _ _ X => X) H') as HI'. rewrite app_nil_r in HI'.
+    assert (Hnames : forall m, In m (map fst l) <-> In m (map fst l')).
+    { intros m. split; apply Permutation_in; [|apply Permutation_sym]; now apply Permutation_map. }
+    assert (Hagree : forall m, In m (map fst l) -> Aggregator.canonical a m = Aggregator.canonical a' m).
+    { intros m Hm. apply (canonical_order_indep ord ord cf fuel cf fuel tag0 tag0 l l' a a' s s'); auto using flat_owner_free. }
+    split; [now apply Hagree|].
+    assert (Hn1 : In n (map fst (rev l))) by (rewrite map_rev; now apply -> in_rev).
+    assert (Hn2 : In n (map fst (rev l'))) by (rewrite map_rev; apply -> in_rev; now apply Hnames).
+    destruct (import_of _ _ _ n HI Hn1) as [y [oid [exs [e [Ha [Hy [U [A B]]]]]]]].
+    destruct (import_of _ _ _ n HI' Hn2) as [y' [oid' [exs' [e' [Ha' [Hy' [U' [A' B']]]]]]]].
+    assert (S1 : forall c, In c (rev l') -> In c (rev l)).
+    { intros c Hc. apply -> in_rev. apply in_rev in Hc. apply (Permutation_in _ (Permutation_sym P) Hc). }
+    assert (S2 : forall c, In c (rev l) -> In c (rev l')).
+    { intros c Hc. apply -> in_rev. apply in_rev in Hc. apply (Permutation_in _ P Hc). }
+    assert (G1 : forall c, In c (rev l) -> Aggregator.canonical a (fst c) = Aggregator.canonical a' (fst c)).
+    { intros c Hc. apply Hagree. apply in_map. now apply in_rev. }
+    assert (G2 : forall c, In c (rev l') -> Aggregator.canonical a' (fst c) = Aggregator.canonical a (fst c)).
+    { intros c Hc. symmetry. apply G1. now apply S1. }
+    exists (KInstance y), (KInstance y'), (XInst e), (XInst e').
+    split; [exact Ha|]. split; [exact Ha'|]. split; [exact U|]. split; [exact U'|]. split.
+    - exact (sub_of_justified a s (rev l) a' s' (rev l') n HI HI' S1 G1 Hn1 (Hagree n Hn)
+                              y oid exs y' oid' exs' e e' Ha Hy Ha' Hy' A B').
+    - exact (sub_of_justified a' s' (rev l') a s (rev l) n HI' HI S2 G2 Hn2 (eq_sym (Hagree n Hn))
+                              y' oid' exs' y oid exs e' e Ha' Hy' Ha Hy A' B).
   Qed.
 End Hist.
